@@ -5,6 +5,7 @@ from ..model import AnalysisError
 from ..report import Check
 from .lookups import (bias_consumers, delegation, index_forwarders, index_key_rule, kind_filter,
                       notify_protocol, tree_lookup, tree_sites)
+from .bounds import at_impl, on_impl
 from .ownership import ownership
 
 RULES = {
@@ -16,6 +17,8 @@ RULES = {
     "R05.4": "lookups read the maintained index freshly through the helper of the same kind",
     "R05.5": "sibling agreement: code/data variants are isinstance filters of the byte variant; "
              "section/module/IR methods are same-name unions over their children",
+    "R05.7": "boundary logic of the tree helpers as difference constraints: 'on' keeps exactly "
+             "B < STOP and B+size > START with size != 0; 'at' keeps exactly begin-in-range",
     "R05.6": "bias agreement: builders encode [b, b+size] as Interval(b, b+size+1) and every "
              "consumer of an interval end subtracts that bias",
 }
@@ -28,8 +31,9 @@ def run(chk: Check) -> None:
         "of the current structure (index keys are notifying attributes; the descriptor and the "
         "membership primitives keep the index paired on every path) and the agreement of the 30 "
         "lookup methods with each other (term normalisation).  The comparison logic inside the "
-        "tree helpers (boundary arithmetic, zero-size exclusion) is NOT decided beyond the bias "
-        "agreement.")
+        "tree helpers is decided as a difference-constraint normal form (R05.7: library fact of "
+        "IntervalTree.overlap + the helper's filters, bias substituted, compared with the "
+        "constraint set the property states); arithmetic on values is not executed.")
     for k, v in RULES.items():
         chk.rule(k, v)
     repo = chk.repo
@@ -84,3 +88,5 @@ def run(chk: Check) -> None:
             delegation(chk, ir, "%s_blocks_%s" % (stem, s), [("attr", ("self",), "modules")], "R05.5")
     chk.floor("R05.5", "block lookup methods", n, 30)
     bias_consumers(chk, "R05.6", ["util", "section"])
+    on_impl(chk, "R05.7")
+    at_impl(chk, "R05.7")
